@@ -15,12 +15,12 @@ import (
 // C13 — DIMACS, OPB and WCNF texts mean what their formats say.
 
 type FmtCase struct {
-	Kind   string  `json:"kind"` // cnf | cnf-explain | opb | wcnf
-	Layout string  `json:"layout"`
-	Text   string  `json:"text"`
-	F      [][]int `json:"f,omitempty"` // cnf reference
-	N      int     `json:"n"`
-	P      *Prob   `json:"p,omitempty"` // opb reference
+	Kind   string   `json:"kind"` // cnf | cnf-explain | opb | wcnf
+	Layout string   `json:"layout"`
+	Text   string   `json:"text"`
+	F      [][]int  `json:"f,omitempty"` // cnf reference
+	N      int      `json:"n"`
+	P      *Prob    `json:"p,omitempty"` // opb reference
 	M      *MaxCase `json:"m,omitempty"` // wcnf reference
 }
 
